@@ -185,8 +185,11 @@ fn fraction_to_nanosec(fraction: u32) -> u32 {
     ((fraction as u64 * 1_000_000_000) / (1u64 << 32)) as u32
 }
 
+// Rounds up so that fraction_to_nanosec (which truncates) returns exactly the original
+// nanoseconds: one nanosecond spans about 4.29 fraction units, so the smallest fraction not
+// below the exact quotient always maps back to the same nanosecond.
 fn nanosec_to_fraction(nanosec: u32) -> u32 {
-    (((nanosec as u64 * (1u64 << 32)) + 500_000_000) / 1_000_000_000) as u32
+    (nanosec as u64 * (1u64 << 32)).div_ceil(1_000_000_000) as u32
 }
 
 #[allow(dead_code)]
